@@ -438,6 +438,11 @@ func runDisputeHistory(t *testing.T, seed int64) (string, map[string]int, string
 	}
 	// a selector of reporter 1 at another validator: a fee paid from reporter 1's stake then has two origins
 	bondOrigins := r.Intn(2) == 0
+	// sub-scenario: a fee paid from a stake with two origins is refunded after both origin validators left the bonded set
+	refundAfterJail := r.Intn(4) == 0
+	if refundAfterJail {
+		bondOrigins = true
+	}
 	if bondOrigins {
 		a := nVals + 3
 		_, _ = w.stakingMS.Delegate(w.ctx, &stakingtypes.MsgDelegate{DelegatorAddress: w.accts[a].String(), ValidatorAddress: w.valOps[2].String(), Amount: w.coin(bi(3000 * loyaPerTRB))})
@@ -551,7 +556,7 @@ func runDisputeHistory(t *testing.T, seed int64) (string, map[string]int, string
 	pct := map[disputetypes.DisputeCategory]int64{disputetypes.Warning: 100, disputetypes.Minor: 20, disputetypes.Major: 1}[cat]
 	full := bquo(bmul(new(big.Int).SetUint64(rep.Power), bi(loyaPerTRB)), bi(pct))
 	proposer := pick(r, 1, nVals+3, w.team)
-	if bondOrigins && r.Intn(3) != 0 {
+	if bondOrigins && (refundAfterJail || r.Intn(3) != 0) {
 		proposer = 1
 	}
 	fromBond := proposer == 1 && (bondOrigins || r.Intn(2) == 0)
@@ -561,6 +566,11 @@ func runDisputeHistory(t *testing.T, seed int64) (string, map[string]int, string
 	}
 	rounds := pick(r, 1, 1, 2, 3)
 	choice := pick(r, disputetypes.VoteEnum_VOTE_AGAINST, disputetypes.VoteEnum_VOTE_AGAINST, disputetypes.VoteEnum_VOTE_SUPPORT, disputetypes.VoteEnum_VOTE_INVALID)
+	if refundAfterJail {
+		rounds = 1
+		choice = pick(r, disputetypes.VoteEnum_VOTE_INVALID, disputetypes.VoteEnum_VOTE_SUPPORT)
+		first = full
+	}
 	var id uint64
 	propose := func(fee *big.Int, bond bool) {
 		roles := w.backersOf(rep)
@@ -640,7 +650,7 @@ func runDisputeHistory(t *testing.T, seed int64) (string, map[string]int, string
 		block(pick(r, 24*time.Hour, 72*time.Hour+time.Second), nil)
 	}
 	// the validators that backed a fee paid from stake leave the bonded set before the refunds
-	if bondOrigins && fromBond && r.Intn(3) != 0 && w.halted == "" {
+	if bondOrigins && fromBond && (refundAfterJail || r.Intn(3) != 0) && w.halted == "" {
 		block(time.Second, func() {
 			jailVal(1)
 			jailVal(2)
